@@ -1,6 +1,7 @@
 (* Model/OptionsSpec.v — the specification side of property C16: "who is addressed by what",
    written directly over the tree unfolding of the forest, without any recursion over option
    lists being handed down.  Executable (used in Examples), no proofs here. *)
+From Coq Require Import Permutation.
 From Eino Require Import Base.Util Model.Options.
 
 (* the node a path designates, walking from graph [gi] *)
@@ -118,3 +119,7 @@ Definition keys_unique (F : forest) : Prop :=
 Definition well_nested (F : forest) : Prop :=
   forall gi g nd gj, nth_error F gi = Some g -> In nd g -> n_kind nd = KSub gj ->
                      (gi < gj /\ gj < List.length F)%nat.
+
+(* the same forest with the nodes of every graph listed in another order (Go: another iteration
+   order of the graph's nodes map) *)
+Definition forest_perm (F F' : forest) : Prop := Forall2 (@Permutation node) F F'.
